@@ -59,3 +59,82 @@ def facts(job):
             "lower_changes": [i for i in range(128) if chr(i).lower() != chr(i)],
             "lower_ok": all(chr(i).lower() == chr(i + 32) for i in range(65, 91)),
             "linesep": os.linesep}
+
+
+# ---------------------------------------------------------------- round 3: LARGE files and call sequences
+from c11_util import digest, expand_segs  # noqa: E402
+
+
+def _digests(status, actions, written):
+    """the observables of a LARGE case as digests (c11_util.digest = Corr.BigText.digest_texts)"""
+    return {"status": status, "n_actions": len(actions), "actions": digest(actions), "joined": digest(["".join(actions)]),
+            "file": None if written is None else digest([written]), "file_bytes": None if written is None else len(written),
+            "first": actions[:2], "last": actions[-2:]}
+
+
+def ff_big(job):
+    text = expand_segs(job["segs"])
+    src = _tmpfile(text.encode("latin-1"), ".log")
+    out = Path(str(src) + ".plan")
+    try:
+        status, actions = MetricFFParser().get_solving_status(src)
+        MetricFFParser().parse_plan(src, out)
+        written = out.read_bytes().decode("latin-1") if out.exists() else None
+        return dict(_digests(status, list(actions), written), chars=len(text))
+    finally:
+        src.unlink()
+        if out.exists():
+            out.unlink()
+
+
+def enhsp_big(job):
+    text = expand_segs(job["segs"])
+    src = _tmpfile(text.encode("latin-1"), ".plan")
+    try:
+        actions = ENHSPParser.parse_plan_content(src)
+        ENHSPParser().parse_plan(src)
+        return dict(_digests("", list(actions), src.read_bytes().decode("latin-1")), chars=len(text))
+    finally:
+        src.unlink()
+
+
+def sequence(job):
+    """A call SEQUENCE in one process on the SAME paths: each step puts a text at the log path (or leaves the file as the
+    previous step left it: ENHSPParser.parse_plan rewrites its input) and runs the parser on it.  One result per step, in
+    the form of ff()/enhsp(), plus the bytes that were at the path when the step began."""
+    TMP.mkdir(parents=True, exist_ok=True)
+    base = Path(tempfile.mkdtemp(dir=str(TMP), prefix="seq_"))
+    src, out = base / "planner.log", base / "plan.solution"
+    res = []
+    try:
+        for st in job["steps"]:
+            try:
+                if st.get("write", True):
+                    if st.get("how") == "replace":
+                        tmp = base / "planner.new"
+                        tmp.write_bytes(st["text"].encode("latin-1"))
+                        os.replace(tmp, src)
+                    else:
+                        if st.get("how") == "recreate" and src.exists():
+                            src.unlink()
+                        src.write_bytes(st["text"].encode("latin-1"))
+                before = src.read_bytes().decode("latin-1")
+                if st["enhsp"]:
+                    actions = ENHSPParser.parse_plan_content(src)
+                    ENHSPParser().parse_plan(src)
+                    res.append({"status": "", "actions": list(actions), "file": src.read_bytes().decode("latin-1"), "text_at_path": before})
+                else:
+                    if out.exists():
+                        out.unlink()          # only what THIS call writes is observed
+                    status, actions = MetricFFParser().get_solving_status(src)
+                    MetricFFParser().parse_plan(src, out)
+                    written = out.read_bytes().decode("latin-1") if out.exists() else None
+                    res.append({"status": status, "actions": list(actions), "file": written, "text_at_path": before})
+            except Exception as e:  # noqa
+                res.append({"raised": type(e).__name__, "msg": str(e)[:200]})
+    finally:
+        for p in (src, out, base / "planner.new"):
+            if p.exists():
+                p.unlink()
+        base.rmdir()
+    return {"steps": res}
